@@ -26,7 +26,7 @@ use vfx::*;
 use vo::*;
 
 #[derive(Clone, Default)]
-struct Info { size: u64, fee: u64, mem: u64, ncoll: usize, plutus: bool, resigned: bool }
+struct Info { size: u64, fee: u64, mem: u64, steps: u64, words: Vec<u64>, ncoll: usize, plutus: bool, resigned: bool }
 type RuleMut = fn(&mut Scen, &mut Rng, &Info) -> bool;
 fn shelley_plus(s: &Scen) -> bool { s.fam != Fam::Byron }
 fn alonzo_plus(s: &Scen) -> bool { s.has_scripts_era() }
@@ -294,6 +294,94 @@ fn relax_size_fee(s: &mut Scen) {
         _ => {}
     }
 }
+// ---------------------------------------------------------------- exact boundaries of the numeric rules
+macro_rules! pp_post { ($s:expr, |$p:ident| $body:block) => { match &mut $s.env.pp { PP::Alonzo($p) => $body, PP::Babbage($p) => $body, PP::Conway($p) => $body, _ => {} } } }
+fn set_fee_params(s: &mut Scen, a: u32, b: u32) {
+    match &mut s.env.pp { PP::Shelley(p) => { p.minfee_a = a; p.minfee_b = b } PP::Alonzo(p) => { p.minfee_a = a; p.minfee_b = b } PP::Babbage(p) => { p.minfee_a = a; p.minfee_b = b } PP::Conway(p) => { p.minfee_a = a; p.minfee_b = b } _ => {} }
+}
+fn set_max_size(s: &mut Scen, v: u32) {
+    match &mut s.env.pp { PP::Shelley(p) => p.max_transaction_size = v, PP::Alonzo(p) => p.max_transaction_size = v, PP::Babbage(p) => p.max_transaction_size = v, PP::Conway(p) => p.max_transaction_size = v, _ => {} }
+}
+fn coin_words(c: u64) -> u64 { if c < (1u64 << 32) { 1 } else { 2 } }
+/// (label, scenario, must be rejected, body changed): each numeric rule exactly at its limit (accepted) and one past it (rejected)
+fn boundary_cases(b: &Scen, i: &Info, r: &mut Rng) -> Vec<(String, Scen, bool, bool)> {
+    let mut out: Vec<(String, Scen, bool, bool)> = vec![];
+    if b.fam == Fam::Byron { return out }
+    let mut add = |label: &str, s: Scen, reject: bool, body: bool| out.push((format!("{}/{}", label, if reject { "one-past-the-limit" } else { "at-the-limit" }), s, reject, body));
+    // minimum fee: constant part and per-byte part
+    if i.fee < u32::MAX as u64 - 1 {
+        for (d, rej) in [(1u64, true), (0, false)] {
+            let mut s = clone_scen(b); set_fee_params(&mut s, 0, (i.fee + d) as u32); add("min_fee", s, rej, false);
+            if i.fee + d >= i.size && i.size > 0 { let mut s = clone_scen(b); set_fee_params(&mut s, 1, (i.fee + d - i.size) as u32); add("min_fee/per_byte", s, rej, false); }
+        }
+    }
+    // maximum transaction size
+    if i.size > 0 { for (v, rej) in [(i.size - 1, true), (i.size, false)] { let mut s = clone_scen(b); set_max_size(&mut s, v as u32); add("tx_size", s, rej, false); } }
+    // validity interval
+    if let Some(ttl) = b.get(3).and_then(|v| as_u64(v)) { if ttl < u64::MAX { for (v, rej) in [(ttl + 1, true), (ttl, false)] {
+        let mut s = clone_scen(b); s.env.slot = v; if let Some(vs) = b.get(8).and_then(|x| as_u64(x)) { if vs > v { continue } } add("validity_upper", s, rej, false); } } }
+    if b.has_scripts_era() { if let Some(vs) = b.get(8).and_then(|v| as_u64(v)) { if vs > 0 { for (v, rej) in [(vs - 1, true), (vs, false)] {
+        let mut s = clone_scen(b); s.env.slot = v; add("validity_lower", s, rej, false); } } } }
+    if b.has_scripts_era() {
+        // execution units
+        if i.mem > 0 { for (v, rej) in [(i.mem - 1, true), (i.mem, false)] { let mut s = clone_scen(b); pp_post!(s, |p| { p.max_tx_ex_units.mem = v }); add("ex_units/mem", s, rej, false); } }
+        if i.steps > 0 { for (v, rej) in [(i.steps - 1, true), (i.steps, false)] { let mut s = clone_scen(b); pp_post!(s, |p| { p.max_tx_ex_units.steps = v }); add("ex_units/steps", s, rej, false); } }
+        // value size
+        if let Some(mw) = i.words.iter().max() { if *mw > 0 && *mw <= u32::MAX as u64 { for (v, rej) in [(*mw - 1, true), (*mw, false)] { let mut s = clone_scen(b); pp_post!(s, |p| { p.max_value_size = v as u32 }); add("value_size", s, rej, false); } } }
+        // number of collateral inputs
+        if i.plutus && i.ncoll > 0 { for (v, rej) in [(i.ncoll as u32 - 1, true), (i.ncoll as u32, false)] { let mut s = clone_scen(b); pp_post!(s, |p| { p.max_collateral_inputs = v }); add("collateral_count", s, rej, false); } }
+    }
+    // minimum ada: a new output paying exactly the minimum / one lovelace less, taken from the first output
+    if i.resigned {
+        let per: Option<(u64, u64)> = match &b.env.pp { PP::Shelley(p) => Some((p.min_utxo_value, 0)), PP::Alonzo(p) => Some((p.ada_per_utxo_byte, 27)), PP::Babbage(p) => Some((p.ada_per_utxo_byte, 160)), PP::Conway(p) => Some((p.ada_per_utxo_byte, 160)), _ => None };
+        if let Some((a, k)) = per {
+            let min = if k == 0 { a } else { let m1 = a.saturating_mul(1 + k); if coin_words(m1) == 1 { m1 } else { a.saturating_mul(2 + k) } };
+            let outs = b.outputs();
+            if min > 1 && !outs.is_empty() && outs[0].coin > min.saturating_mul(3) {
+                for (c, rej) in [(min - 1, true), (min, false)] {
+                    let mut s = clone_scen(b); let mut o = s.outputs();
+                    let mut n = o[0].clone(); n.coin = c; n.assets = None; n.datum = None; n.sref = None; n.legacy = !s.is_post_alonzo(); o[0].coin -= c; o.push(n);
+                    s.set_outputs(&o); add("min_ada", s, rej, true);
+                }
+            }
+        }
+    }
+    // collateral amount: balance = ceil(fee * pct / 100) accepted, one lovelace less rejected
+    if i.plutus && b.has_scripts_era() && i.fee > 0 {
+        if let Some((_, coll)) = b.inlist(13) {
+            let ins = b.inputs().1;
+            if !coll.is_empty() && coll.iter().all(|c| !ins.contains(c)) {
+                let ret = b.get(16).and_then(|o| parse_out(o)).map(|o| o.coin).unwrap_or(0);
+                let entries: Vec<usize> = coll.iter().filter_map(|c| b.uentry(&c.0, c.1)).collect();
+                if entries.len() == coll.len() {
+                    for pct in [100u64, 125, 150, 151, 155, 199] {
+                        let prod = i.fee as u128 * pct as u128;
+                        if prod % 100 == 0 && pct != 100 { continue }
+                        let need = ((prod + 99) / 100) as u64;
+                        for (paid, rej) in [(need.wrapping_sub(1), true), (need, false)] {
+                            let mut s = clone_scen(b);
+                            pp_post!(s, |p| { p.collateral_percentage = pct as u32 });
+                            let alonzo = matches!(s.fam, Fam::AC(_));
+                            // Alonzo tests every entry on its own; Babbage/Conway the balance (inputs - return)
+                            let mut ok = true;
+                            for (n, &e) in entries.iter().enumerate() {
+                                let Some(mut o) = parse_out(&s.utxo[e].out) else { ok = false; break };
+                                o.coin = if alonzo { paid } else if n == 0 { match paid.checked_add(ret) { Some(v) => v, None => { ok = false; break } } } else { 0 };
+                                s.utxo[e].out = enc_out(&o);
+                            }
+                            if !ok { continue }
+                            let mut body = false;
+                            if !alonzo && s.get(17).is_some() { if !i.resigned { continue } s.put(17, c_uint(paid)); body = true }
+                            add(&format!("collateral_amount(pct{})", pct), s, rej, body);
+                        }
+                    }
+                }
+            }
+        }
+    }
+    let _ = r;
+    out
+}
 fn family(label: &str) -> &str {
     match label { "no_extraneous_script" | "script_witnesses" | "mint_witnessed" => "scripts", "no_extraneous_datum" | "datum_witnesses" => "datums",
                   "validity_upper" | "validity_lower" | "ttl_present" => "validity", "collateral_present" | "collateral_in_utxo" => "collateral_in", _ => label.split('/').next().unwrap_or(label) }
@@ -307,7 +395,9 @@ fn info_of(s: &Scen, resigned: bool) -> Option<(Info, Oc)> {
         // redeemers in the witness set
         let nonempty = |k: u64| s.wget(k).and_then(|raw| arr_items(untag(raw).1)).map(|l| !l.is_empty()).unwrap_or(false);
         let plutus = nonempty(3) || nonempty(6) || nonempty(7) || (s.is_post_alonzo() && s.wget(5).is_some());
-        (Info { size: o.size, fee: metx.fee().unwrap_or(0), mem, ncoll: metx.collateral().len(), plutus, resigned }, o.e2e)
+        let steps: u64 = metx.redeemers().iter().map(|r| r.ex_units().steps).fold(0u64, |a, b| a.saturating_add(b));
+        let words = match guard_total(|| va::output_words(metx)) { Out::Ok(w) => w, _ => vec![] };
+        (Info { size: o.size, fee: metx.fee().unwrap_or(0), mem, steps, words, ncoll: metx.collateral().len(), plutus, resigned }, o.e2e)
     })
 }
 
@@ -340,7 +430,11 @@ fn main() {
             let o = observe(&tx, metx, utxos, env, &s.cs, None);
             let term = if args.oracle_only { String::new() } else {
                 let bw: Vec<pallas_primitives::byron::Twit> = if let AnyTx::Byron(p) = &tx { p.witness.iter().cloned().collect() } else { vec![] };
-                format!("(true,{},{},{},{},{})", va::tx_term(&tx, metx, utxos, env, &o, &s.cs, s.counts), va::utxo_term(utxos, &bw), va::env_term(env), o.e2e.coq(), coq_list(&o.checks, |c| c.1.coq()))
+                match guard_total(|| format!("(true,{},{},{},{},{})", va::tx_term(&tx, metx, utxos, env, &o, &s.cs, s.counts), va::utxo_term(utxos, &bw), va::env_term(env), o.e2e.coq(), coq_list(&o.checks, |c| c.1.coq()))) {
+                    Out::Ok(t) => t,
+                    Out::Panic(m) => { emit_oracle_fail(&format!("panic:{}:abstraction-helper:{}", fam_name(&tx), last_site()), &format!("panic={} {}", m, scen_text(s, fname))); String::new() }
+                    Out::Err(_) => String::new(),
+                }
             };
             (fam_name(&tx), o, term)
         });
@@ -358,7 +452,7 @@ fn main() {
             } else { n_rejected += 1 }
             if let Oc::Panic(m) = &o.e2e { emit_oracle_fail(&format!("panic:{}:{}", fam, label), &format!("panic={} {}", m, scen_text(s, fname))); }
         }
-        if !args.oracle_only { emit_case(&format!("{}{}:{}", if must_reject { "" } else { "trivial-" }, fam, label), &term) }
+        if !args.oracle_only && !term.is_empty() { emit_case(&format!("{}{}:{}", if must_reject { "" } else { "trivial-" }, fam, label), &term) }
         let _ = rng;
     };
     // the accepted bases themselves
@@ -394,6 +488,21 @@ fn main() {
         }
     }
     emit_stat("two_script_input_bases_accepted", n_two);
+    // every numeric rule exactly at its limit (control: must still be accepted) and one past it (must be rejected)
+    let (mut n_ctl, mut n_ctl_ok) = (0u64, 0u64);
+    for (name, b, info) in &base {
+        for (label, mut s, reject, body) in boundary_cases(b, info, &mut rng) {
+            if body { relax_size_fee(&mut s); vm::resign(&mut s, &mut rng); }
+            if reject { *applied.entry(label.split('/').next().unwrap_or("").split('(').next().unwrap_or("").to_string() + "/boundary").or_insert(0) += 1; run(&s, name, &label, &mut rng, true) }
+            else {
+                n_ctl += 1;
+                match info_of(&s, info.resigned) { Some((_, Oc::Ok)) => { n_ctl_ok += 1; run(&s, name, &label, &mut rng, false) }
+                    Some((_, oc)) => emit_sample(&format!("control not accepted: {} on {} -> {:?}", label, name, oc)), None => {} }
+            }
+        }
+    }
+    emit_stat("boundary_controls", n_ctl);
+    emit_stat("boundary_controls_accepted", n_ctl_ok);
     // random pairs (mutators calibrated on the transaction - size, fee, unit sums, collateral count - go last and
     // are calibrated on the transaction as the first mutator left it)
     let calibrated = |l: &str| matches!(l, "tx_size" | "min_fee" | "min_fee/per_byte" | "ex_units" | "collateral_count");
